@@ -334,7 +334,7 @@ pub fn run(ctx: &Ctx) -> i32 {
         salt: 0x1401_0000,
         nshards: 64,
         enumerated: &enumerated,
-        random_cases: tier.pick(150_000, 6_000_000),
+        random_cases: tier.pick(600_000, 10_000_000),
         build_random: &|e| build(e, None, None),
         classify: &|c, j, t: &Tag, s| classify(c, j, t, s),
         all_quirks: false,
@@ -343,7 +343,7 @@ pub fn run(ctx: &Ctx) -> i32 {
     stats.exhaustive_subspaces.insert("set_handler vector numbers 0-255".into(), 256);
 
     // sequences of calls + set_handler followed by an interrupt of that vector
-    let nseq: u32 = tier.pick(20_000, 800_000);
+    let nseq: u32 = tier.pick(80_000, 1_500_000);
     let nshards = 32usize;
     let sstats = par_shards(ctx, nshards, |shard| {
         let w = Worker::new(ctx);
